@@ -90,6 +90,24 @@ impl SnmpOid<'_> {
     pub fn starts_with(&self, oid: &SnmpOid) -> bool {
         oid.0.starts_with(&self.0)
     }
+    // Lexicographic order of the sub-identifiers, as used by GETNEXT.
+    // The leading octet(s) (40 * X + Y) compare as a single number.
+    pub fn cmp_lexicographic(&self, other: &SnmpOid) -> std::cmp::Ordering {
+        fn sub_ids(data: &[u8]) -> impl Iterator<Item = u64> + '_ {
+            let mut acc = 0u64;
+            data.iter().filter_map(move |&c| {
+                acc = (acc << 7) | ((c & 0x7f) as u64);
+                if c & 0x80 == 0 {
+                    let v = acc;
+                    acc = 0;
+                    Some(v)
+                } else {
+                    None
+                }
+            })
+        }
+        sub_ids(&self.0).cmp(sub_ids(&other.0))
+    }
 }
 
 struct OidSubelementIterator<'a>(core::str::Split<'a, &'a str>);
